@@ -54,8 +54,8 @@ AGG_FIELD = {   # aggregate -> source fields it is documented for
 def src_row(rng, i, nkeys):
     return {'k': rng.choice(list(range(nkeys)) + [None] if rng.random() < 0.05 else list(range(nkeys))),
             'k2': rng.choice(['x', 'y', 'zz']),
-            'v': rng.choice([None, 1, 2, 3, 10, -4]),
-            'w': rng.choice([None, D('1.5'), D('2'), D('-0.25'), D('10.125')]),
+            'v': rng.choice([None, 0, 1, 2, 3, 10, -4]),
+            'w': rng.choice([None, D('0'), D('1.5'), D('2'), D('-0.25'), D('10.125')]),
             's': rng.choice([None, 'a', 'b', 'ab', 'é']),
             'd': rng.choice([None, datetime.date(2020, 1, 1), datetime.date(1999, 5, 17),
                              datetime.date(2021, 12, 31)])}
@@ -111,17 +111,22 @@ def run_case(case):
         for i, r in enumerate(S):
             r['k'] = i if i < nkeys else rng.randrange(nkeys)
     # key shape
-    shape = rng.choice(['list_same', 'list_diff', 'composite', 'fmt_literal', 'rownum', 'fmt_rownum'])
+    shape = rng.choice(['list_same', 'list_diff', 'composite', 'fmt_literal', 'rownum', 'fmt_rownum', 'equal_but_distinct'])
     if spill:
         shape = rng.choice(['list_same', 'fmt_literal'])
     if mode == 'dedup' and shape in ('list_diff', 'rownum', 'fmt_rownum'):
         shape = 'composite'
     tk_names = {'list_same': ['k'], 'list_diff': ['tk'], 'composite': ['k', 'k2'], 'fmt_literal': ['tk'],
-                'rownum': [], 'fmt_rownum': ['tk']}[shape]
+                'rownum': [], 'fmt_rownum': ['tk'], 'equal_but_distinct': ['k']}[shape]
     source_key = {'list_same': ['k'], 'list_diff': ['k'], 'composite': ['k', 'k2'],
-                  'fmt_literal': 'K-{k}', 'rownum': ['#'], 'fmt_rownum': '{#}'}[shape]
+                  'fmt_literal': 'K-{k}', 'rownum': ['#'], 'fmt_rownum': '{#}', 'equal_but_distinct': ['k']}[shape]
     target_key = {'list_same': ['k'], 'list_diff': ['tk'], 'composite': ['k', 'k2'],
-                  'fmt_literal': '{tk}', 'rownum': ['#'], 'fmt_rownum': '{tk}'}[shape]
+                  'fmt_literal': '{tk}', 'rownum': ['#'], 'fmt_rownum': '{tk}', 'equal_but_distinct': ['k']}[shape]
+    if shape == 'equal_but_distinct':
+        # key values that compare (and hash) equal but RENDER differently are different keys
+        EQ = [D('1'), D('1.0'), D('1.00'), 1, 1.0, True, D('2'), 2]
+        for r in S:
+            r['k'] = rng.choice(EQ)
     cov['key_shape'][shape + ('/spill' if spill else '')] = 1
     T = []
     for i in range(nt):
@@ -129,7 +134,9 @@ def run_case(case):
         if spill:
             kv = rng.randrange(nkeys + 50)
         row = {'tid': i, 'keep': rng.choice(['p', 'q', None])}
-        if shape in ('list_same',):
+        if shape == 'equal_but_distinct':
+            row['k'] = rng.choice([D('1'), D('1.0'), D('1.00'), 1, 1.0, True, D('2'), 2, D('3')])
+        elif shape in ('list_same',):
             row['k'] = kv
         elif shape == 'list_diff':
             row['tk'] = kv
@@ -142,8 +149,8 @@ def run_case(case):
             row['tk'] = rng.randint(1, max(1, ns + 1))
         T.append(row)
     t_fields = [('tid', 'integer'), ('keep', 'string')] + \
-               [(n, {'k': 'integer', 'k2': 'string'}.get(n, 'string' if shape == 'fmt_literal' else 'integer'))
-                for n in tk_names]
+               [(n, {'k': 'integer' if shape != 'equal_but_distinct' else 'any', 'k2': 'string'}.get(
+                   n, 'string' if shape == 'fmt_literal' else 'integer')) for n in tk_names]
     # fields mapping
     fields, ref_fields = {}, {}
     naggs = rng.randint(1, 4)
@@ -183,7 +190,7 @@ def run_case(case):
     source_delete = rng.random() < 0.6
     cfg = {'mode': mode, 'source_key': source_key, 'target_key': target_key, 'fields': fields,
            'source_delete': source_delete, 'shape': shape, 'ns': ns, 'nt': nt}
-    sf = gen.schema_fields(SRC_FIELDS)
+    sf = gen.schema_fields([(n_, 'any' if (n_ == 'k' and shape == 'equal_but_distinct') else t_) for n_, t_ in SRC_FIELDS])
     if mode == 'dedup':
         steps = [lab.source('src', sf, S),
                  d.join_with_self('src', copy.deepcopy(source_key), copy.deepcopy(fields))]
